@@ -8,6 +8,7 @@ import FitProps.C16
 import FitProps.C04
 import FitProps.C08
 import FitModel.Generated.DecApiStdFactory
+import FitProps.EndToEndDescLemmas
 /-!
 # Links between the models of the decoder
 
@@ -184,6 +185,10 @@ theorem Link_stdFactory_ok : facFdOK stdFactory = true ∧ facBtOK stdFactory = 
   simp only [stdFactory, List.mem_map] at he
   obtain ⟨x, _, rfl⟩ := he
   simp at hc
+
+/-- the standard factory knows the three key members of `field_description` — the hypothesis `keysKnown` under which the
+message validator guarantees `Wire.msgsDescOK` (`C01_e2e_validator_descs`), and what `Fit.Wire` / `Fit.DecProg` hard-code -/
+theorem Link_stdFactory_keys : E2E.keysKnown stdFactory = true := by decide +kernel
 
 /-- non-vacuity: the hypotheses of `Link_decprog_eq_api` are met by the standard factory, every option and the sample file of
 C04 (file_id and a record); there the loop returns one FIT with two messages -/
